@@ -201,7 +201,13 @@ pub extern "C" fn tsrun_resolve_promise(
     };
 
     let promise_rv = RuntimeValue::unguarded(promise_val.value().clone());
-    match crate::api::resolve_promise(&mut ctx.interp, &promise_rv, value_val) {
+    // Promise handlers run while the promise is settled and may call host functions:
+    // they need the context just like code running under tsrun_step / tsrun_call
+    let prev_ffi_context = ctx.interp.ffi_context;
+    ctx.interp.ffi_context = ctx as *mut TsRunContext as *mut core::ffi::c_void;
+    let result = crate::api::resolve_promise(&mut ctx.interp, &promise_rv, value_val);
+    ctx.interp.ffi_context = prev_ffi_context;
+    match result {
         Ok(()) => TsRunResult::success(),
         Err(e) => TsRunResult::err(ctx, e.to_string()),
     }
@@ -249,7 +255,11 @@ pub extern "C" fn tsrun_reject_promise(
     let error_rv = RuntimeValue::with_guard(JsValue::Object(error_obj), guard);
 
     let promise_rv = RuntimeValue::unguarded(promise_val.value().clone());
-    match crate::api::reject_promise(&mut ctx.interp, &promise_rv, error_rv) {
+    let prev_ffi_context = ctx.interp.ffi_context;
+    ctx.interp.ffi_context = ctx as *mut TsRunContext as *mut core::ffi::c_void;
+    let result = crate::api::reject_promise(&mut ctx.interp, &promise_rv, error_rv);
+    ctx.interp.ffi_context = prev_ffi_context;
+    match result {
         Ok(()) => TsRunResult::success(),
         Err(e) => TsRunResult::err(ctx, e.to_string()),
     }
